@@ -1,6 +1,7 @@
 package world
 
 import (
+	"k8s.io/apimachinery/pkg/api/resource"
 	"fmt"
 
 	corev1 "k8s.io/api/core/v1"
@@ -16,7 +17,8 @@ import (
 type RegisterOpts struct {
 	NoUnregisteredTaint bool // the provider failed to add the race-protection taint
 	NotReadyTaint       bool // node.kubernetes.io/not-ready:NoSchedule present until Ready
-	ZeroExt             bool // extended resources reported as zero at first
+	ZeroExt             bool // extended resources not reported at first (key absent)
+	ExplicitZeroExt     bool // extended resources reported with an explicit 0 at first (device plugin registered, no healthy device yet)
 	OmitHostname        bool
 }
 
@@ -50,6 +52,14 @@ func (w *World) KubeletRegister(nc *v1.NodeClaim, o RegisterOpts) *corev1.Node {
 			if isExt(k) {
 				delete(alloc, k)
 				delete(capac, k)
+			}
+		}
+	}
+	if o.ExplicitZeroExt {
+		for k := range alloc {
+			if isExt(k) {
+				alloc[k] = resource.MustParse("0")
+				capac[k] = resource.MustParse("0")
 			}
 		}
 	}
